@@ -370,6 +370,19 @@ func (r *vcReplayer) run() string {
 			err = w.restart()
 		case "Vector":
 			err = r.vector(s)
+		case "Learn":
+			p := w.peers[s.P]
+			blk := bpv7.NewDTLSRBlock(bpv7.DTLSRPeerData{ID: p.eid, Timestamp: bpv7.DtnTimeNow(), Peers: map[bpv7.EndpointID]bpv7.DtnTime{bpv7.MustNewEndpointID("dtn://far/"): 0}})
+			w.barrierN++
+			lsa, berr := bpv7.Builder().BundleCtrlFlags(bpv7.MustNotFragmented).Source(p.eid).Destination(dtlsrBroadcastAddress).
+				CreationTimestampTime(w.base.Add(time.Duration(w.barrierN)*time.Millisecond + 3*time.Hour)).Lifetime("1h").PayloadBlock([]byte("lsa")).Canonical(blk).Build()
+			if berr != nil {
+				err = berr
+				break
+			}
+			if err = vcInject(p.ch, cla.NewConvergenceReceivedBundle(p, bpv7.DtnNone(), &lsa)); err == nil {
+				err = w.barrierVia(p.ch, p)
+			}
 		case "Recompute":
 			if d, ok := w.c.routing.(*DTLSR); ok {
 				d.dataMutex.Lock()
